@@ -1184,10 +1184,22 @@ func oracleC07(c *Case, o *Outcome, log []Access, mr *modelResult, treeAsserted 
 		wants = append(wants, "["+strings.Join(w, " <- ")+"]")
 	}
 	sig = "wrong-trace: other"
+	// K1 (the tracer cached per including file) can only concern errors raised AFTER scanning,
+	// through a directive. An INCLUDE that fails (missing target, directory, refused parameter,
+	// recursion - what the include model predicts) is reported while scanning, from the live
+	// scanner stack: a stale line in ITS trace is not K1
+	scanTime := (mr.failFile != "" && filepath.Clean(e.File) == filepath.Clean(mr.failFile) && (mr.failLine == 0 || e.Line == mr.failLine)) ||
+		// (the macro recursion check reuses the text of the include recursion error: only an error
+		// that quotes an INCLUDE line is the scan-time one)
+		(strings.Contains(e.Msg, "recursion is detected") && strings.HasPrefix(strings.TrimLeft(e.Quote, " \t"), "INCLUDE")) ||
+		strings.Contains(e.Msg, "incorrect parameter (Filename)")
 	for _, in := range cands {
-		if staleIncludeLine(got, in, e.Line, mr) {
+		if !scanTime && staleIncludeLine(got, in, e.Line, mr) {
 			sig = "wrong-trace: stale-include-line"
 		}
+	}
+	if scanTime {
+		sig = "wrong-trace: of a failing INCLUDE"
 	}
 	return "wrong-trace", sig, fmt.Sprintf("the include trace of the error is [%s]; the include chains of the file instance(s) that were served these bytes are %s", strings.Join(got, " <- "), strings.Join(wants, " or "))
 }
